@@ -31,64 +31,77 @@ Print Assumptions C11_doc_table_complete.
 (** every documented key, EVERY snapshot (position, length incl. None / 0 / < position / 2^64-1,
     tick, finished, message, prefix, clock dependent getters), every width: the arm of the code
     computes the documented getter o formatter.  (per_sec with a width: next theorem) *)
-Theorem C11_table : forall (F : formatters) (ticks : list text) (s : snapshot) (k : string)
+Theorem C11_table : forall (F : formatters) (ticks : list text) (tab : N) (s : snapshot) (k : string)
                            (w : option N),
   In k DOCUMENTED_KEYS ->
   (k = "per_sec" -> w = None) ->
-  key_value F ticks s k w = documented F ticks s k w.
+  key_value F ticks tab s k w = documented F ticks tab s k w.
 Proof. exact table_correct. Qed.
 Print Assumptions C11_table.
 
 (** undocumented: {per_sec:W} uses W as the precision of the number as well *)
-Theorem C11_per_sec_width : forall F ticks s w,
-  key_value F ticks s "per_sec" (Some w)
+Theorem C11_per_sec_width : forall F ticks tab s w,
+  key_value F ticks tab s "per_sec" (Some w)
   = ((f_hfloat F (Some w) (o_per_sec (s_obs s)) ++ per_s)%list, None).
 Proof. exact per_sec_width. Qed.
 Print Assumptions C11_per_sec_width.
 
 (** a key that is neither implemented nor custom renders nothing *)
-Theorem C11_unknown_key_empty : forall F ticks s k w,
-  ~ In k FORMAT_KEYS -> key_value F ticks s k w = ([], None).
+Theorem C11_unknown_key_empty : forall F ticks tab s k w,
+  ~ In k FORMAT_KEYS -> key_value F ticks tab s k w = ([], None).
 Proof. exact unknown_key_empty. Qed.
 Print Assumptions C11_unknown_key_empty.
 
 (** --- missing length ---------------------------------------------------------------------- *)
 (** with an unknown length every key renders what it renders with length = position ... *)
-Theorem C11_missing_len : forall F ticks s k w,
+Theorem C11_missing_len : forall F ticks tab s k w,
   s_len s = None ->
-  key_value F ticks s k w = key_value F ticks (with_s_len s (Some (s_pos s))) k w.
+  key_value F ticks tab s k w = key_value F ticks tab (with_s_len s (Some (s_pos s))) k w.
 Proof. exact missing_len_all_keys. Qed.
 Print Assumptions C11_missing_len.
 
 (** ... explicitly: the five length keys show the position *)
-Theorem C11_missing_len_values : forall F ticks s w,
+Theorem C11_missing_len_values : forall F ticks tab s w,
   s_len s = None ->
-  key_value F ticks s "len" w = (dec_text (s_pos s), None)
-  /\ key_value F ticks s "human_len" w = (f_count F (s_pos s), None)
-  /\ key_value F ticks s "total_bytes" w = (f_hbytes F (s_pos s), None)
-  /\ key_value F ticks s "decimal_total_bytes" w = (f_dbytes F (s_pos s), None)
-  /\ key_value F ticks s "binary_total_bytes" w = (f_bbytes F (s_pos s), None).
+  key_value F ticks tab s "len" w = (dec_text (s_pos s), None)
+  /\ key_value F ticks tab s "human_len" w = (f_count F (s_pos s), None)
+  /\ key_value F ticks tab s "total_bytes" w = (f_hbytes F (s_pos s), None)
+  /\ key_value F ticks tab s "decimal_total_bytes" w = (f_dbytes F (s_pos s), None)
+  /\ key_value F ticks tab s "binary_total_bytes" w = (f_bbytes F (s_pos s), None).
 Proof. exact missing_len_values. Qed.
 Print Assumptions C11_missing_len_values.
 
 (** --- spinner ----------------------------------------------------------------------------- *)
 (** n >= 2 tick strings (the builder guarantees it, C14): string [tick mod (n-1)] while in
-    progress - never the last one -, the last one once finished *)
-Theorem C11_spinner : forall F ticks s w,
+    progress - never the last one -, the last one once finished; written through the TabRewriter
+    (style.rs:277-279, fix 6ff82af): every TAB of the tick string is [tab] blanks, [tab] = the
+    style's tab width (in a run: the bar's, see C11_nonvacuous_spinner_tab) *)
+Theorem C11_spinner : forall F ticks tab s w,
   (2 <= List.length ticks)%nat ->
   let n := N.of_nat (List.length ticks) in
-  fst (key_value F ticks s "spinner" w) =
-    (if s_finished s then last ticks []
-     else nth (N.to_nat (s_tick s mod (n - 1))) ticks [])
+  fst (key_value F ticks tab s "spinner" w) =
+    expand_tabs tab
+      (if s_finished s then last ticks []
+       else nth (N.to_nat (s_tick s mod (n - 1))) ticks [])
   /\ (s_tick s mod (n - 1) < n - 1).
 Proof. exact spinner_value. Qed.
 Print Assumptions C11_spinner.
 
-Theorem C11_spinner_period : forall F ticks s s' w,
+(** a tick string without TAB is shown verbatim, for every tab width; and whatever the tick
+    strings are, no TAB reaches the frame through {spinner} *)
+Theorem C11_spinner_no_tab : forall F ticks tab s w,
+  let t := if s_finished s then last ticks []
+           else nth (N.to_nat (s_tick s mod (N.of_nat (List.length ticks) - 1))) ticks [] in
+  (~ In 9 t -> fst (key_value F ticks tab s "spinner" w) = t)
+  /\ ~ In 9 (fst (key_value F ticks tab s "spinner" w)).
+Proof. exact spinner_no_tab. Qed.
+Print Assumptions C11_spinner_no_tab.
+
+Theorem C11_spinner_period : forall F ticks tab s s' w,
   (2 <= List.length ticks)%nat ->
   s_finished s = false -> s_finished s' = false ->
   s_tick s' = s_tick s + (N.of_nat (List.length ticks) - 1) ->
-  fst (key_value F ticks s' "spinner" w) = fst (key_value F ticks s "spinner" w).
+  fst (key_value F ticks tab s' "spinner" w) = fst (key_value F ticks tab s "spinner" w).
 Proof. exact spinner_period. Qed.
 Print Assumptions C11_spinner_period.
 
@@ -300,11 +313,40 @@ Example C11_nonvacuous_run :
   snd (brun htracker_ops F 80 (binit (Some 10) sty) ops)
   = [Some [[51; 47; 49; 48; 32; 98; 32; 76; 49; 44; 48; 44; 49; 32; 32; 51; 47; 49; 48]];
      Some [[49; 48; 47; 49; 48; 32; 99; 32; 76; 49; 44; 48; 44; 49; 32; 32; 49; 48; 47; 49; 48; 70]]]
-  /\ Forall (doc_part sty) [PKey "pos" None; PLit [47]; PKey "len" None; PLit [32]; PKey "spinner" None]
   /\ bar_events htracker_ops F 80 (binit (Some 10) sty) ops
      = [(BTick, {| v_pos := 3; v_len := Some 10; v_finished := false |}, 5)].
+Proof. split; vm_compute; reflexivity. Qed.
+
+(** the hypotheses of C11_frame_documented on the WHOLE template of an actual draw, a template
+    WITH keys - one of them {spinner} over tick strings that contain TABs:
+    "{pos}/{len:5} {spinner}|{eta}", tab width 4, tick strings "\ta" "b\t" "\t", length 10,
+    inc(3) admitted with eta() = 9 s.  The frame is "3/10    b    |9s" (the TAB of "b\t" is 4
+    blanks), and it is what the conclusion of the theorem computes *)
+Example C11_nonvacuous_frame_documented :
+  let F := table_formatters [(6, 9000000000, 0, [57; 115])] in         (* {:#} HumanDuration(9 s) = "9s" *)
+  let sty : style htracker :=
+    {| tick_strings := [[9; 97]; [98; 9]; [9]]; sty_tab := 4; customs := [];
+       template := [PKey "pos" None; PLit [47]; PKey "len" (Some 5); PLit [32];
+                    PKey "spinner" None; PLit [124]; PKey "eta" None] |} in
+  let e := {| e_now := 5; e_allowed := true;
+              e_obs := {| o_fraction := 0; o_elapsed := 0; o_eta := 9000000000; o_duration := 0;
+                          o_per_sec := 0 |} |} in
+  let b := binit (Some 10) sty in
+  let b' := fst (bstep htracker_ops F 80 b (OInc 3, e)) in
+  let lines := [[51; 47; 49; 48; 32; 32; 32; 32; 98; 32; 32; 32; 32; 124; 57; 115]] in
+  snd (bstep htracker_ops F 80 b (OInc 3, e)) = Some lines
+  /\ b_status b' <> DoneHidden
+  /\ Forall (doc_part (b_style b')) (template (b_style b'))
+  /\ lines = match concat (map (doc_text F (b_style b') (snapshot_of b' (e_obs e)))
+                               (template (b_style b'))) with
+             | [] => []
+             | line => split_nl line []
+             end.
 Proof.
-  split; [vm_compute; reflexivity |]. split; [| vm_compute; reflexivity].
+  intros F sty e b b' lines.
+  split; [vm_compute; reflexivity |]. split; [vm_compute; discriminate |].
+  split; [| vm_compute; reflexivity].
+  assert (Hs : b_style b' = sty) by (vm_compute; reflexivity). rewrite Hs.
   repeat (apply Forall_cons;
           [ first [ exact I
                   | cbn [doc_part]; repeat split;
@@ -313,14 +355,62 @@ Proof.
   apply Forall_nil.
 Qed.
 
+(** the same for C11_frame_documented_lines: a two-line template with keys on both lines,
+    "{pos}/{len}\n{spinner}|", and the frame "3/10" / "b    |" *)
+Example C11_nonvacuous_frame_documented_lines :
+  let F := table_formatters [] in
+  let sty : style htracker :=
+    {| tick_strings := [[9; 97]; [98; 9]; [9]]; sty_tab := 4; customs := [];
+       template := [PKey "pos" None; PLit [47]; PKey "len" None; PNewLine;
+                    PKey "spinner" None; PLit [124]] |} in
+  let e := {| e_now := 5; e_allowed := true;
+              e_obs := {| o_fraction := 0; o_elapsed := 0; o_eta := 0; o_duration := 0;
+                          o_per_sec := 0 |} |} in
+  let b := binit (Some 10) sty in
+  let b' := fst (bstep htracker_ops F 80 b (OInc 3, e)) in
+  let lines := [[51; 47; 49; 48]; [98; 32; 32; 32; 32; 124]] in
+  snd (bstep htracker_ops F 80 b (OInc 3, e)) = Some lines
+  /\ b_status b' <> DoneHidden
+  /\ Forall (doc_part_ml (b_style b')) (template (b_style b'))
+  /\ lines = join_lines (map (doc_line F (b_style b') (snapshot_of b' (e_obs e)))
+                             (split_lines (template (b_style b')))).
+Proof.
+  intros F sty e b b' lines.
+  split; [vm_compute; reflexivity |]. split; [vm_compute; discriminate |].
+  split; [| vm_compute; reflexivity].
+  assert (Hs : b_style b' = sty) by (vm_compute; reflexivity). rewrite Hs.
+  repeat (apply Forall_cons;
+          [ first [ exact I
+                  | cbn [doc_part_ml doc_part]; repeat split;
+                    try (intros; reflexivity); try discriminate;
+                    try (apply mem_In; vm_compute; reflexivity) ] | ]).
+  apply Forall_nil.
+Qed.
+
+(** {spinner} follows the bar's tab width: tick strings "\ta" "b\t" "\t", bar built with tab
+    width 4; inc(3) draws "b    |", set_tab_width(2) redraws "b  |", the finish draws the final
+    tick string "\t" as two blanks *)
+Example C11_nonvacuous_spinner_tab :
+  let F := table_formatters [] in
+  let sty : style htracker :=
+    {| tick_strings := [[9; 97]; [98; 9]; [9]]; sty_tab := 4; customs := [];
+       template := [PKey "spinner" None; PLit [124]] |} in
+  let o := {| o_fraction := 0; o_elapsed := 0; o_eta := 0; o_duration := 0; o_per_sec := 0 |} in
+  let ops := [(OInc 3, {| e_now := 5; e_allowed := true; e_obs := o |});
+              (OSetTabWidth 2, {| e_now := 6; e_allowed := true; e_obs := o |});
+              (OFinish FinAndLeave, {| e_now := 7; e_allowed := true; e_obs := o |})] in
+  snd (brun htracker_ops F 80 (binit (Some 10) sty) ops)
+  = [Some [[98; 32; 32; 32; 32; 124]]; Some [[98; 32; 32; 124]]; Some [[32; 32; 124]]].
+Proof. vm_compute. reflexivity. Qed.
+
 (** missing length / len < pos / u64::MAX snapshots exist and render *)
 Example C11_nonvacuous_missing_len :
   let s := {| s_pos := 18446744073709551615; s_len := None; s_tick := 7; s_finished := false;
               s_message := []; s_prefix := [];
               s_obs := {| o_fraction := 0; o_elapsed := 0; o_eta := 0; o_duration := 0; o_per_sec := 0 |} |} in
-  fst (key_value (table_formatters []) [[97]; [98]; [99]] s "len" None)
+  fst (key_value (table_formatters []) [[97]; [98]; [99]] 8 s "len" None)
   = [49; 56; 52; 52; 54; 55; 52; 52; 48; 55; 51; 55; 48; 57; 53; 53; 49; 54; 49; 53]
-  /\ fst (key_value (table_formatters []) [[97]; [98]; [99]] s "spinner" None) = [98].
+  /\ fst (key_value (table_formatters []) [[97]; [98]; [99]] 8 s "spinner" None) = [98].
 Proof. split; vm_compute; reflexivity. Qed.
 
 (** a multi-line template with a wide message on a non-final line and placeholders after it (the
